@@ -35,210 +35,259 @@ Section NodeInd.
 End NodeInd.
 
 (* ------------------------------------------------------------------ unfolding *)
-Lemma exec_eq v lim nd f :
-  exec v lim nd f =
+Lemma exec_eq v md lim nd f :
+  exec v md lim nd f =
   match nd with
   | Text t => seq (m_leaf (f_tp f)) (m_write lim t)
   | Echo x => fun s => m_write lim (lget x (s_locals s)) s
   | Assign x t => m_assign v lim f x t
-  | Capture x body => in_child (block v lim body f) (fun val => m_assign v lim f x val)
-  | IfChanged body => in_child (block v lim body f) (m_ifchanged lim)
+  | Capture x body => in_child (block v md lim body f) (fun val => m_assign v lim f x val)
+  | IfChanged body => in_child (block v md lim body f) (m_ifchanged lim)
   | For n body =>
       if (n =? 0)%N then ret
       else seq (guard (loop_exceeded v lim f n) XLoop)
           (seq (guard (depth_exceeded lim f) XDepth)
-               (iter 1 (N.to_nat n) (fun _ => block v lim body (f_for f n))))
+               (iter 1 (N.to_nat n) (fun _ => block v md lim body (f_for f n))))
   | Tablerow n body =>
       seq (guard (loop_exceeded v lim f n) XLoop)
      (seq (m_write lim tr_open)
      (seq (guard (depth_exceeded lim f) XDepth)
-     (seq (iter 1 (N.to_nat n) (fun k => seq (m_write lim (td_open k)) (seq (block v lim body (f_scale v (f_ext f) n)) (m_write lim td_close))))
+     (seq (iter 1 (N.to_nat n) (fun k => seq (m_write lim (td_open k)) (seq (block v md lim body (f_scale v (f_ext f) n)) (m_write lim td_close))))
           (m_write lim tr_close))))
   | Include body =>
       seq (guard (f_no_include f) XDisabled)
-     (seq (guard (nest_exceeded lim body) XNesting)
+     (seq (nest_guard md lim body)
      (seq (guard (depth_exceeded lim f) XDepth)
-          (partial v lim body (f_ext f))))
+          (partial v md lim body (f_ext f))))
   | IncludeArr n body =>
       seq (guard (f_no_include f) XDisabled)
-     (seq (guard (nest_exceeded lim body) XNesting)
+     (seq (nest_guard md lim body)
      (seq (guard (depth_exceeded lim f) XDepth)
      (seq (guard (loop_exceeded v lim (f_ext f) n) XLoop)
-          (iter 1 (N.to_nat n) (fun _ => partial v lim body (f_scale v (f_ext f) n))))))
+          (iter 1 (N.to_nat n) (fun _ => partial v md lim body (f_scale v (f_ext f) n))))))
   | Render body =>
-      seq (guard (nest_exceeded lim body) XNesting)
+      seq (nest_guard md lim body)
      (seq (guard (copy_exceeded lim f) XDepth)
-          (fun s => in_ctx (partial v lim body (f_copy f (sum_sizes (s_locals s)))) s))
+          (fun s => in_ctx (partial v md lim body (f_copy f (sum_sizes (s_locals s)))) s))
   | RenderFor n body =>
-      seq (guard (nest_exceeded lim body) XNesting)
+      seq (nest_guard md lim body)
      (seq (guard (copy_exceeded lim f) XDepth)
           (fun s => let fc := f_copy f (sum_sizes (s_locals s)) in
                     seq (guard (loop_exceeded v lim fc n) XLoop)
                         (if v_item v
-                         then iter 1 (N.to_nat n) (fun _ => in_ctx (partial v lim body (f_scale v fc n)))
-                         else in_ctx (iter 1 (N.to_nat n) (fun _ => partial v lim body (f_scale v fc n)))) s))
+                         then iter 1 (N.to_nat n) (fun _ => in_ctx (partial v md lim body (f_scale v fc n)))
+                         else in_ctx (iter 1 (N.to_nat n) (fun _ => partial v md lim body (f_scale v fc n)))) s))
   | Call body =>
       seq (guard (copy_exceeded lim f) XDepth)
-          (fun s => in_ctx (block v lim body (f_copy f (sum_sizes (s_locals s)))) s)
+          (fun s => in_ctx (block v md lim body (f_copy f (sum_sizes (s_locals s)))) s)
   end.
 Proof. destruct nd; reflexivity. Qed.
 
-Lemma exec_list_cons v lim x r f : exec_list v lim (x :: r) f = seq (exec v lim x f) (exec_list v lim r f).
+Lemma exec_list_cons v md lim x r f : exec_list v md lim (x :: r) f = seq (exec v md lim x f) (exec_list v md lim r f).
 Proof. reflexivity. Qed.
 
-(* ------------------------------------------------------------------ inversion of the combinators *)
+Lemma run_nodes_cons v md lim x r f :
+  run_nodes v md lim (x :: r) f = seq (handle md (exec v md lim x f)) (run_nodes v md lim r f).
+Proof. reflexivity. Qed.
+
+(* ------------------------------------------------------------------ inversion of the combinators (successful runs) *)
 Lemma seq_ok (a b : M) s s' : seq a b s = LOk s' -> exists s1, a s = LOk s1 /\ b s1 = LOk s'.
-Proof. unfold seq. destruct (a s) as [s1| |]; try discriminate. eauto. Qed.
+Proof. unfold seq. destruct (a s) as [s1|e s1|]; try discriminate. eauto. Qed.
 
 Lemma guard_ok b e s s' : guard b e s = LOk s' -> b = false /\ s' = s.
 Proof. unfold guard. destruct b; intro H; inversion H; auto. Qed.
 
+Lemma nest_guard_ok md lim body s s' : nest_guard md lim body s = LOk s' -> nest_exceeded lim body = false /\ s' = s.
+Proof. unfold nest_guard. destruct (nest_exceeded lim body); [destruct (tolerant md); discriminate|]. intro H; inversion H; auto. Qed.
+
 Lemma in_null_ok (m : M) s s' : in_null m s = LOk s' -> exists s1, m (set_buf s BNull) = LOk s1 /\ s' = set_buf s1 (s_buf s).
-Proof. unfold in_null. destruct (m _) as [s1| |]; intro H; inversion H. eauto. Qed.
+Proof. unfold in_null. destruct (m _) as [s1|e s1|]; intro H; inversion H. eauto. Qed.
 
 Lemma in_child_ok (m : M) k s s' :
   in_child m k s = LOk s' ->
   exists s1, m (set_buf s (child_of (s_buf s))) = LOk s1 /\ k (buf_text (s_buf s1)) (set_buf s1 (s_buf s)) = LOk s'.
-Proof. unfold in_child. destruct (m _) as [s1| |]; intro H; try discriminate. eauto. Qed.
+Proof. unfold in_child. destruct (m _) as [s1|e s1|]; intro H; try discriminate. eauto. Qed.
 
 Lemma in_ctx_ok (m : M) s s' :
   in_ctx m s = LOk s' -> exists s1, m (set_mut s [] []) = LOk s1 /\ s' = set_mut s1 (s_locals s) (s_ifch s).
-Proof. unfold in_ctx. destruct (m _) as [s1| |]; intro H; inversion H. eauto. Qed.
-
-Lemma iter_preserves (P : st -> Prop) (body : Z -> M) :
-  (forall k s s', P s -> body k s = LOk s' -> P s') ->
-  forall n k s s', P s -> iter k n body s = LOk s' -> P s'.
-Proof.
-  intros Hb. induction n as [|n IH]; intros k s s' HP H; simpl in H.
-  - unfold ret in H. inversion H; subst; auto.
-  - apply seq_ok in H. destruct H as (s1 & H1 & H2). eauto.
-Qed.
+Proof. unfold in_ctx. destruct (m _) as [s1|e s1|]; intro H; inversion H. eauto. Qed.
 
 Lemma iter_first (body : Z -> M) n k s s' :
   iter k (S n) body s = LOk s' -> exists s1, body k s = LOk s1.
 Proof. simpl. intro H. apply seq_ok in H. destruct H as (s1 & H1 & _). eauto. Qed.
 
-(* ------------------------------------------------------------------ generic preservation *)
-(* A frame invariant I (re-established by every construct for the frame it passes down) and a state
-   invariant P (kept by the primitive steps and by the buffer / namespace swaps) are kept by exec. *)
+(* in STRICT mode the per-node handler is the identity *)
+Lemma handle_strict (m : M) s : handle Strict m s = m s.
+Proof. unfold handle. destruct (m s); reflexivity. Qed.
+
+Lemma run_nodes_strict v lim l f s : run_nodes v Strict lim l f s = exec_list v Strict lim l f s.
+Proof.
+  revert s. induction l as [|x r IH]; intro s; [reflexivity|].
+  rewrite run_nodes_cons, exec_list_cons. unfold seq. rewrite handle_strict.
+  destruct (exec v Strict lim x f s); auto.
+Qed.
+
+(* ------------------------------------------------------------------ generic preservation, all modes *)
+(* A frame invariant I (re-established by every construct for the frame it passes down), a state invariant P for
+   the states a run continues from, and a condition E for the states carried by errors.  In WARN/LAX mode the
+   render continues from error states, so E must give P back there; in STRICT mode E may be anything. *)
 Section Preserve.
-  Variables (v : variant) (lim : limits).
+  Variables (v : variant) (md : mode) (lim : limits).
   Variable I : frame -> Prop.
-  Variable P : st -> Prop.
+  Variables P E : st -> Prop.
+
+  Definition post (r : lres st) : Prop :=
+    match r with LOk s' => P s' | LErr _ s' => E s' | LFuel => True end.
+  Definition H (m : M) : Prop := forall s, P s -> post (m s).
+
   Hypothesis I_ext : forall f, I f -> I (f_ext f).
   Hypothesis I_for : forall f n, I f -> loop_exceeded v lim f n = false -> I (f_for f n).
   Hypothesis I_scale : forall f n, I f -> loop_exceeded v lim f n = false -> I (f_scale v f n).
   Hypothesis I_copy : forall f z, I f -> I (f_copy f z).
-  Hypothesis P_leaf : forall f s s', I f -> P s -> m_leaf (f_tp f) s = LOk s' -> P s'.
-  Hypothesis P_write : forall t s s', P s -> m_write lim t s = LOk s' -> P s'.
-  Hypothesis P_assign : forall f x val s s', I f -> P s -> m_assign v lim f x val s = LOk s' -> P s'.
+  Hypothesis H_leaf : forall f, I f -> H (m_leaf (f_tp f)).
+  Hypothesis H_write : forall t, H (m_write lim t).
+  Hypothesis H_assign : forall f x val, I f -> H (m_assign v lim f x val).
   Hypothesis P_null : forall s, P s -> P (set_buf s BNull).
   Hypothesis P_child : forall s, P s -> P (set_buf s (child_of (s_buf s))).
   Hypothesis P_restore : forall s s1, P s -> P s1 -> P (set_buf s1 (s_buf s)).
+  Hypothesis E_restore : forall s s1, P s -> E s1 -> E (set_buf s1 (s_buf s)).
   Hypothesis P_mut : forall s l i, P s -> P (set_mut s l i).
+  Hypothesis E_mut : forall s l i, E s -> E (set_mut s l i).
+  Hypothesis P_E : forall s, P s -> E s.
+  Hypothesis E_P : tolerant md = true -> forall s, E s -> P s.
 
-  Definition keeps (m : frame -> M) : Prop := forall f s s', I f -> P s -> m f s = LOk s' -> P s'.
+  Lemma H_ret : H ret.
+  Proof. intros s HP. exact HP. Qed.
 
-  Lemma P_ifchanged val s s' : P s -> m_ifchanged lim val s = LOk s' -> P s'.
+  Lemma H_seq a b : H a -> H b -> H (seq a b).
+  Proof. intros Ha Hb s HP. unfold seq. specialize (Ha s HP). destruct (a s) as [s1|e s1|]; simpl in *; [apply Hb; exact Ha|exact Ha|exact Logic.I]. Qed.
+
+  Lemma H_guard g e : H (guard g e).
+  Proof. intros s HP. unfold guard. destruct g; simpl; auto. Qed.
+
+  Lemma H_nest_guard body : H (nest_guard md lim body).
+  Proof. intros s HP. unfold nest_guard. destruct (nest_exceeded lim body); [destruct (tolerant md)|]; simpl; auto. Qed.
+
+  Lemma H_iter body : (forall k, H (body k)) -> forall n k, H (iter k n body).
+  Proof. intros Hb. induction n as [|n IH]; intro k; simpl; [apply H_ret|]. apply H_seq; auto. Qed.
+
+  Lemma H_in_null m : H m -> H (in_null m).
   Proof.
-    unfold m_ifchanged. destruct (str_eqb val (s_ifch s)); intros HP H.
-    - inversion H; subst; auto.
-    - eapply P_write; [|exact H]. apply P_mut; auto.
+    intros Hm s HP. unfold in_null. specialize (Hm (set_buf s BNull) (P_null s HP)).
+    destruct (m _) as [s1|e s1|]; simpl in *; auto.
   Qed.
 
-  Lemma keeps_block body : keeps (exec_list v lim body) -> keeps (block v lim body).
+  Lemma H_in_child m k : H m -> (forall val, H (k val)) -> H (in_child m k).
   Proof.
-    intros Hl f s s' HI HP H. unfold block in H. destruct (blank_list body).
-    - apply in_null_ok in H. destruct H as (s1 & H1 & ->).
-      apply P_restore; auto. eapply Hl; [exact HI| |exact H1]. auto.
-    - eapply Hl; eauto.
+    intros Hm Hk s HP. unfold in_child. specialize (Hm (set_buf s (child_of (s_buf s))) (P_child s HP)).
+    destruct (m _) as [s1|e s1|]; simpl in *; auto. apply Hk. auto.
   Qed.
 
-  Lemma keeps_partial body : keeps (exec_list v lim body) -> keeps (partial v lim body).
+  Lemma H_in_ctx m : H m -> H (in_ctx m).
   Proof.
-    intros Hl f s s' HI HP H. unfold partial in H.
-    apply seq_ok in H. destruct H as (s1 & H1 & H2). apply guard_ok in H1. destruct H1 as [_ ->].
-    eapply Hl; [apply I_ext; exact HI|exact HP|exact H2].
+    intros Hm s HP. unfold in_ctx. specialize (Hm (set_mut s [] []) (P_mut s [] [] HP)).
+    destruct (m _) as [s1|e s1|]; simpl in *; auto.
   Qed.
 
-  Lemma loop_exceeded_ext f n : loop_exceeded v lim (f_ext f) n = loop_exceeded v lim f n.
-  Proof. reflexivity. Qed.
-
-  Ltac step H :=
-    let s1 := fresh "s" in let H1 := fresh "H" in
-    apply seq_ok in H; destruct H as (s1 & H1 & H).
-  Ltac gstep H :=
-    let s1 := fresh "s" in let H1 := fresh "G" in
-    apply seq_ok in H; destruct H as (s1 & H1 & H); apply guard_ok in H1; destruct H1 as [H1 ->].
-
-  Theorem exec_keeps : forall nd, keeps (exec v lim nd).
+  Lemma H_handle m : H m -> H (handle md m).
   Proof.
-    apply (node_ind' (fun nd => keeps (exec v lim nd)) (fun l => keeps (exec_list v lim l)));
-      unfold keeps.
-    - (* Text *) intros t f s s' HI HP H. rewrite exec_eq in H. step H. eapply P_write; [|exact H]. eapply P_leaf; eauto.
-    - (* Echo *) intros x f s s' HI HP H. rewrite exec_eq in H. eapply P_write; eauto.
-    - (* Assign *) intros x t f s s' HI HP H. rewrite exec_eq in H. eapply P_assign; eauto.
-    - (* Capture *) intros x b IH f s s' HI HP H. rewrite exec_eq in H.
-      apply in_child_ok in H. destruct H as (s1 & H1 & H2).
-      eapply P_assign; [exact HI| |exact H2]. apply P_restore; auto.
-      eapply (keeps_block b IH); [exact HI| |exact H1]. auto.
-    - (* IfChanged *) intros b IH f s s' HI HP H. rewrite exec_eq in H.
-      apply in_child_ok in H. destruct H as (s1 & H1 & H2).
-      eapply P_ifchanged; [|exact H2]. apply P_restore; auto.
-      eapply (keeps_block b IH); [exact HI| |exact H1]. auto.
-    - (* For *) intros n b IH f s s' HI HP H. rewrite exec_eq in H.
-      destruct (n =? 0)%N. { inversion H; subst; auto. }
-      gstep H. gstep H.
-      eapply iter_preserves; [|exact HP|exact H].
-      intros k s1 s2 HP1 Hb. eapply (keeps_block b IH); [|exact HP1|exact Hb]. auto.
-    - (* Tablerow *) intros n b IH f s s' HI HP H. rewrite exec_eq in H.
-      gstep H. step H. gstep H. step H.
-      eapply P_write; [|exact H].
-      eapply iter_preserves; [| |exact H1]; [|eapply P_write; eauto].
-      intros k s3 s4 HP3 Hb. step Hb. step Hb.
-      eapply P_write; [|exact Hb].
-      eapply (keeps_block b IH); [| |exact H3]; [|eapply P_write; eauto].
-      apply I_scale; auto.
-    - (* Include *) intros b IH f s s' HI HP H. rewrite exec_eq in H.
-      gstep H. gstep H. gstep H.
-      eapply (keeps_partial b IH); [|exact HP|exact H]. auto.
-    - (* IncludeArr *) intros n b IH f s s' HI HP H. rewrite exec_eq in H.
-      gstep H. gstep H. gstep H. gstep H.
-      eapply iter_preserves; [|exact HP|exact H].
-      intros k s1 s2 HP1 Hb. eapply (keeps_partial b IH); [|exact HP1|exact Hb].
-      apply I_scale; auto.
-    - (* Render *) intros b IH f s s' HI HP H. rewrite exec_eq in H.
-      gstep H. gstep H.
-      apply in_ctx_ok in H. destruct H as (s1 & H1 & ->).
-      apply P_mut. eapply (keeps_partial b IH); [| |exact H1]; auto.
-    - (* RenderFor *) intros n b IH f s s' HI HP H. rewrite exec_eq in H.
-      gstep H. gstep H. cbv zeta in H. gstep H.
-      destruct (v_item v).
-      + eapply iter_preserves; [|exact HP|exact H].
-        intros k s3 s4 HP3 Hb. apply in_ctx_ok in Hb. destruct Hb as (s5 & H5 & ->).
-        apply P_mut. eapply (keeps_partial b IH); [| |exact H5]; [|apply P_mut; exact HP3].
-        apply I_scale; auto.
-      + apply in_ctx_ok in H. destruct H as (s1 & H1 & ->).
-        apply P_mut. eapply iter_preserves; [| |exact H1]; [|apply P_mut; exact HP].
-        intros k s3 s4 HP3 Hb. eapply (keeps_partial b IH); [|exact HP3|exact Hb].
-        apply I_scale; auto.
-    - (* Call *) intros b IH f s s' HI HP H. rewrite exec_eq in H.
-      gstep H.
-      apply in_ctx_ok in H. destruct H as (s1 & H1 & ->).
-      apply P_mut. eapply (keeps_block b IH); [| |exact H1]; auto.
-    - (* nil *) intros f s s' HI HP H. inversion H; subst; auto.
-    - (* cons *) intros x r IHx IHr f s s' HI HP H. rewrite exec_list_cons in H. step H. eauto.
+    intros Hm s HP. unfold handle. specialize (Hm s HP). destruct (m s) as [s1|e s1|]; simpl in *; auto.
+    destruct (tolerant md) eqn:T; simpl; auto.
   Qed.
 
-  Corollary exec_list_keeps : forall l, keeps (exec_list v lim l).
+  Lemma H_fun (F : st -> M) : (forall s0, H (F s0)) -> H (fun s => F s s).
+  Proof. intros HF s HP. apply (HF s s HP). Qed.
+
+  Lemma H_ifchanged val : H (m_ifchanged lim val).
   Proof.
-    induction l as [|x r IH]; intros f s s' HI HP H.
-    - inversion H; subst; auto.
-    - rewrite exec_list_cons in H. step H. eapply IH; [exact HI| |exact H]. eapply exec_keeps; eauto.
+    intros s HP. unfold m_ifchanged. destruct (str_eqb val (s_ifch s)); [exact HP|].
+    apply H_write. apply P_mut; exact HP.
   Qed.
 
-  Corollary partial_keeps : forall l, keeps (partial v lim l).
-  Proof. intro l. apply keeps_partial, exec_list_keeps. Qed.
+  Definition keeps (m : frame -> M) : Prop := forall f, I f -> H (m f).
+
+  Lemma keeps_block body : keeps (exec_list v md lim body) -> keeps (block v md lim body).
+  Proof. intros Hl f HI. unfold block. destruct (blank_list body); [apply H_in_null|]; apply Hl; exact HI. Qed.
+
+  Lemma keeps_run_nodes body : (forall x, In x body -> keeps (exec v md lim x)) -> keeps (run_nodes v md lim body).
+  Proof.
+    induction body as [|x r IH]; intros Hx f HI; [apply H_ret|].
+    rewrite run_nodes_cons. apply H_seq.
+    - apply H_handle. apply Hx; [left; reflexivity|exact HI].
+    - apply IH; [|exact HI]. intros y Hy. apply Hx. right; exact Hy.
+  Qed.
+
+  Lemma keeps_partial body : keeps (run_nodes v md lim body) -> keeps (partial v md lim body).
+  Proof. intros Hl f HI. unfold partial. apply H_seq; [apply H_guard|]. apply Hl. apply I_ext; exact HI. Qed.
+
+  (* the list part of the induction carries both readings of a list: as a block and as a template *)
+  Definition keepsQ (l : list node) : Prop := keeps (exec_list v md lim l) /\ keeps (run_nodes v md lim l).
+
+  Theorem exec_keeps : forall nd, keeps (exec v md lim nd).
+  Proof.
+    apply (node_ind' (fun nd => keeps (exec v md lim nd)) keepsQ); unfold keeps.
+    - (* Text *) intros t f HI. rewrite exec_eq. apply H_seq; [apply H_leaf; exact HI|apply H_write].
+    - (* Echo *) intros x f HI. rewrite exec_eq. apply (H_fun (fun s0 => m_write lim (lget x (s_locals s0)))). intro s0. apply H_write.
+    - (* Assign *) intros x t f HI. rewrite exec_eq. apply H_assign; exact HI.
+    - (* Capture *) intros x b [IH _] f HI. rewrite exec_eq.
+      apply H_in_child; [apply (keeps_block b IH); exact HI|]. intro val. apply H_assign; exact HI.
+    - (* IfChanged *) intros b [IH _] f HI. rewrite exec_eq.
+      apply H_in_child; [apply (keeps_block b IH); exact HI|]. intro val. apply H_ifchanged.
+    - (* For *) intros n b [IH _] f HI. rewrite exec_eq. destruct (n =? 0)%N; [apply H_ret|].
+      intros s HP. unfold seq at 1. unfold guard at 1. destruct (loop_exceeded v lim f n) eqn:G; [simpl; auto|].
+      revert s HP. apply H_seq; [apply H_guard|]. apply H_iter. intro k. apply (keeps_block b IH). apply I_for; auto.
+    - (* Tablerow *) intros n b [IH _] f HI. rewrite exec_eq.
+      intros s HP. unfold seq at 1. unfold guard at 1. destruct (loop_exceeded v lim f n) eqn:G; [simpl; auto|].
+      revert s HP. apply H_seq; [apply H_write|]. apply H_seq; [apply H_guard|]. apply H_seq; [|apply H_write].
+      apply H_iter. intro k. apply H_seq; [apply H_write|]. apply H_seq; [|apply H_write].
+      apply (keeps_block b IH). apply I_scale; auto.
+    - (* Include *) intros b [_ IH] f HI. rewrite exec_eq.
+      apply H_seq; [apply H_guard|]. apply H_seq; [apply H_nest_guard|]. apply H_seq; [apply H_guard|].
+      apply (keeps_partial b IH). auto.
+    - (* IncludeArr *) intros n b [_ IH] f HI. rewrite exec_eq.
+      apply H_seq; [apply H_guard|]. apply H_seq; [apply H_nest_guard|]. apply H_seq; [apply H_guard|].
+      intros s HP. unfold seq at 1. unfold guard at 1. destruct (loop_exceeded v lim (f_ext f) n) eqn:G; [simpl; auto|].
+      revert s HP. apply H_iter. intro k. apply (keeps_partial b IH). apply I_scale; auto.
+    - (* Render *) intros b [_ IH] f HI. rewrite exec_eq.
+      apply H_seq; [apply H_nest_guard|]. apply H_seq; [apply H_guard|].
+      apply (H_fun (fun s0 => in_ctx (partial v md lim b (f_copy f (sum_sizes (s_locals s0)))))).
+      intro s0. apply H_in_ctx. apply (keeps_partial b IH). auto.
+    - (* RenderFor *) intros n b [_ IH] f HI. rewrite exec_eq.
+      apply H_seq; [apply H_nest_guard|]. apply H_seq; [apply H_guard|]. cbv zeta.
+      apply (H_fun (fun s0 => seq (guard (loop_exceeded v lim (f_copy f (sum_sizes (s_locals s0))) n) XLoop)
+                (if v_item v
+                 then iter 1 (N.to_nat n) (fun _ => in_ctx (partial v md lim b (f_scale v (f_copy f (sum_sizes (s_locals s0))) n)))
+                 else in_ctx (iter 1 (N.to_nat n) (fun _ => partial v md lim b (f_scale v (f_copy f (sum_sizes (s_locals s0))) n)))))).
+      intro s0. set (fc := f_copy f (sum_sizes (s_locals s0))).
+      intros s HP. unfold seq at 1. unfold guard at 1. destruct (loop_exceeded v lim fc n) eqn:G; [simpl; auto|].
+      assert (Hp : H (partial v md lim b (f_scale v fc n))).
+      { apply (keeps_partial b IH). apply I_scale; [apply I_copy; exact HI|exact G]. }
+      revert s HP. destruct (v_item v).
+      + apply H_iter. intro k. apply H_in_ctx. exact Hp.
+      + apply H_in_ctx. apply H_iter. intro k. exact Hp.
+    - (* Call *) intros b [IH _] f HI. rewrite exec_eq.
+      apply H_seq; [apply H_guard|].
+      apply (H_fun (fun s0 => in_ctx (block v md lim b (f_copy f (sum_sizes (s_locals s0)))))).
+      intro s0. apply H_in_ctx. apply (keeps_block b IH). auto.
+    - (* nil *) split; intros f HI; apply H_ret.
+    - (* cons *) intros x r IHx [IHr1 IHr2]. split; intros f HI.
+      + rewrite exec_list_cons. apply H_seq; [apply IHx|apply IHr1]; exact HI.
+      + rewrite run_nodes_cons. apply H_seq; [apply H_handle; apply IHx|apply IHr2]; exact HI.
+  Qed.
+
+  Corollary run_nodes_keeps : forall l, keeps (run_nodes v md lim l).
+  Proof. intro l. apply keeps_run_nodes. intros x _. apply exec_keeps. Qed.
+
+  Corollary partial_keeps : forall l, keeps (partial v md lim l).
+  Proof. intro l. apply keeps_partial, run_nodes_keeps. Qed.
+
+  (* the whole render: whatever it returns - a result, or an error with the state it was raised in *)
+  Corollary run_post main sizes : I frame0 -> P (st0 sizes) -> post (run_prog v md lim main sizes).
+  Proof.
+    intros HI HP. unfold run_prog. pose proof (H_nest_guard main (st0 sizes) HP) as Hg.
+    destruct (nest_guard md lim main (st0 sizes)) as [s1|e s1|]; simpl in *; auto.
+    apply (partial_keeps main frame0 HI s1 Hg).
+  Qed.
 End Preserve.
 
 (* ------------------------------------------------------------------ arithmetic helpers *)
@@ -248,16 +297,16 @@ Proof.
   replace (a * b * x)%N with (a * x * b)%N by lia. apply IH.
 Qed.
 
-(* the two repairs, whichever way render-for makes its contexts *)
-Definition is_repaired (v : variant) : Prop := v_carry v = true /\ v_zero v = true.
+(* the repairs, whichever way render-for makes its contexts *)
+Definition is_repaired (v : variant) : Prop := v_carry v = true /\ v_zero v = true /\ v_rollback v = true.
 Lemma repaired_is_repaired : is_repaired repaired.
-Proof. split; reflexivity. Qed.
+Proof. repeat split; reflexivity. Qed.
 
 Lemma loop_limit_repaired v lim : is_repaired v -> loop_limit v lim = l_loop lim.
-Proof. intros [_ Hz]. unfold loop_limit. rewrite Hz. destruct (l_loop lim) as [[|p]|]; reflexivity. Qed.
+Proof. intros (_ & Hz & _). unfold loop_limit. rewrite Hz. destruct (l_loop lim) as [[|p]|]; reflexivity. Qed.
 
 Lemma ns_limit_repaired v lim : is_repaired v -> ns_limit v lim = l_ns lim.
-Proof. intros [_ Hz]. unfold ns_limit. rewrite Hz. destruct (l_ns lim) as [[|p|p]|]; reflexivity. Qed.
+Proof. intros (_ & Hz & _). unfold ns_limit. rewrite Hz. destruct (l_ns lim) as [[|p|p]|]; reflexivity. Qed.
 
 Lemma utf8_len_pos c : 1 <= utf8_len c <= 4.
 Proof. unfold utf8_len. repeat match goal with |- context [if ?b then _ else _] => destruct b end; lia. Qed.
@@ -274,20 +323,42 @@ Proof. induction a as [|c a IH]; simpl; [reflexivity|]. rewrite utf8_bytes_app. 
 Lemma utf8_bytes_rev_append a b : utf8_bytes (rev_append a b) = utf8_bytes a + utf8_bytes b.
 Proof. rewrite rev_append_rev, utf8_bytes_app, utf8_bytes_rev. reflexivity. Qed.
 
-Lemma m_write_logs lim t s s' : m_write lim t s = LOk s' ->
-  s_leaf s' = s_leaf s /\ s_nslog s' = s_nslog s /\ s_locals s' = s_locals s /\ s_sizes s' = s_sizes s /\ s_ifch s' = s_ifch s.
-Proof. unfold m_write. destruct (buf_write _ _ _); intro H; inversion H; subst; simpl; auto. Qed.
+(* a write, accepted or refused, touches nothing but the buffer *)
+Lemma m_write_frame lim t s :
+  match m_write lim t s with
+  | LOk s' | LErr _ s' =>
+      s_leaf s' = s_leaf s /\ s_nslog s' = s_nslog s /\ s_locals s' = s_locals s /\ s_sizes s' = s_sizes s /\ s_ifch s' = s_ifch s
+  | LFuel => True
+  end.
+Proof. unfold m_write. destruct (buf_write _ _ _) as [[|] b]; simpl; auto 6. Qed.
 
-(* ------------------------------------------------------------------ C06: the loop limit bounds the true product *)
-(* bookkeeping product: what raise_for_loop_limit multiplies *)
+(* an assignment, accepted or refused, leaves the buffer and the leaf log alone *)
+Lemma m_assign_frame v lim f x val s :
+  match m_assign v lim f x val s with
+  | LOk s' | LErr _ s' => s_buf s' = s_buf s /\ s_leaf s' = s_leaf s
+  | LFuel => True
+  end.
+Proof.
+  unfold m_assign. destruct (s_sizes s); [exact Logic.I|].
+  destruct (ns_limit v lim); [destruct (_ >? _); [destruct (v_rollback v)|]|]; simpl; auto.
+Qed.
+
+(* repaired: a refused assignment leaves the namespace exactly as it was *)
+Lemma m_assign_refused_keeps_locals v lim f x val s e s' :
+  v_rollback v = true -> m_assign v lim f x val s = LErr e s' -> s_locals s' = s_locals s /\ s_nslog s' = s_nslog s.
+Proof.
+  intros Hr. unfold m_assign. destruct (s_sizes s); [discriminate|].
+  destruct (ns_limit v lim); [destruct (_ >? _)|]; try discriminate. rewrite Hr. intro H; inversion H; subst; simpl; auto.
+Qed.
+
+(* ------------------------------------------------------------------ C06: the loop limit bounds the true product, in every mode *)
 Definition bk (f : frame) : N := fold_left N.mul (f_loops f) (f_carry f).
 
 Section LoopBound.
-  Variables (v : variant) (lim : limits) (L : N).
+  Variables (v : variant) (md : mode) (lim : limits) (L : N).
   Hypothesis Hv : is_repaired v.
   Hypothesis HL : l_loop lim = Some L.
 
-  (* the bookkeeping product IS the true product, and it is within the limit *)
   Definition linv (f : frame) : Prop := bk f = f_tp f /\ (f_tp f <= L)%N.
   Definition leafP (s : st) : Prop := Forall (fun p => (p <= L)%N) (s_leaf s).
 
@@ -306,144 +377,168 @@ Section LoopBound.
   Lemma linv_scale f n : linv f -> loop_exceeded v lim f n = false -> linv (f_scale v f n).
   Proof.
     intros [Hb Ht] He. apply not_exceeded in He. unfold linv, bk, f_scale; simpl.
-    destruct Hv as [Hc _]. rewrite Hc. rewrite fold_mul_scale. fold (bk f). rewrite Hb in *. split; [reflexivity|lia].
+    destruct Hv as (Hc & _). rewrite Hc. rewrite fold_mul_scale. fold (bk f). rewrite Hb in *. split; [reflexivity|lia].
   Qed.
 
-  Theorem exec_leaf_bound nd f s s' :
-    linv f -> leafP s -> exec v lim nd f s = LOk s' -> leafP s'.
-  Proof.
-    apply (exec_keeps v lim linv leafP).
-    - intros f0 [? ?]; split; auto.
-    - exact linv_for.
-    - exact linv_scale.
-    - intros f0 z [? ?]; split; auto.
-    - intros f0 s0 s0' [_ Ht] HP H. inversion H; subst. unfold leafP; simpl. constructor; auto.
-    - intros t s0 s0' HP H. apply m_write_logs in H. unfold leafP. destruct H as (-> & _). exact HP.
-    - intros f0 x val s0 s0' _ HP H. unfold m_assign in H. destruct (s_sizes s0); [discriminate|].
-      destruct (ns_limit v lim); [destruct (_ >? _); [discriminate|]|]; inversion H; subst; exact HP.
-    - intros s0 HP; exact HP.
-    - intros s0 HP; exact HP.
-    - intros s0 s1 _ HP; exact HP.
-    - intros s0 l i HP; exact HP.
-  Qed.
+  Lemma linv_ext f : linv f -> linv (f_ext f).
+  Proof. intros [? ?]; split; auto. Qed.
+  Lemma linv_copy f z : linv f -> linv (f_copy f z).
+  Proof. intros [? ?]; split; auto. Qed.
 
-  Theorem run_leaf_bound main sizes s :
-    (1 <= L)%N -> run_prog v lim main sizes = LOk s -> leafP s.
+  (* whatever the render returns - its result, or the error that escaped with the state at that point - every leaf
+     execution logged so far had a true product <= L; errors dropped on the way (WARN/LAX) included *)
+  Theorem run_leaf_bound main sizes :
+    (1 <= L)%N ->
+    match run_prog v md lim main sizes with
+    | LOk s | LErr _ s => leafP s
+    | LFuel => True
+    end.
   Proof.
-    intros H1 H. unfold run_prog in H. destruct (nest_exceeded lim main); [discriminate|].
-    eapply (partial_keeps v lim linv leafP); [..|exact H].
-    - intros f0 [? ?]; split; auto.
-    - exact linv_for.
-    - exact linv_scale.
-    - intros f0 z [? ?]; split; auto.
-    - intros f0 s0 s0' [_ Ht] HP H0. inversion H0; subst. unfold leafP; simpl. constructor; auto.
-    - intros t s0 s0' HP H0. apply m_write_logs in H0. unfold leafP. destruct H0 as (-> & _). exact HP.
-    - intros f0 x val s0 s0' _ HP H0. unfold m_assign in H0. destruct (s_sizes s0); [discriminate|].
-      destruct (ns_limit v lim); [destruct (_ >? _); [discriminate|]|]; inversion H0; subst; exact HP.
-    - intros s0 HP; exact HP.
-    - intros s0 HP; exact HP.
-    - intros s0 s1 _ HP; exact HP.
-    - intros s0 l i HP; exact HP.
+    intro H1.
+    apply (run_post v md lim linv leafP leafP); auto using linv_ext, linv_for, linv_scale, linv_copy.
+    - intros f [_ Ht] s HP. simpl. unfold leafP; simpl. constructor; auto.
+    - intros t s HP. pose proof (m_write_frame lim t s) as Fr. unfold leafP in *.
+      destruct (m_write lim t s) as [s'|e s'|]; simpl; auto; destruct Fr as (-> & _); exact HP.
+    - intros f x val _ s HP. pose proof (m_assign_frame v lim f x val s) as Fr. unfold leafP in *.
+      destruct (m_assign v lim f x val s) as [s'|e s'|]; simpl; auto; destruct Fr as (_ & ->); exact HP.
     - split; [reflexivity|exact H1].
     - constructor.
   Qed.
 End LoopBound.
 
-(* ------------------------------------------------------------------ C07: namespace sizes *)
+(* ------------------------------------------------------------------ C07: namespace sizes, in every mode *)
 Section NsBound.
-  Variables (v : variant) (lim : limits).
+  Variables (v : variant) (md : mode) (lim : limits).
   Hypothesis Hv : is_repaired v.
 
-  (* the carried size IS the measured size of the ancestors' namespaces *)
   Definition ninv (f : frame) : Prop := f_ns_carry f = f_anc f.
   Definition ns_ok (p : Z * Z) : Prop := fst p = snd p /\ forall M, l_ns lim = Some M -> fst p <= M.
   Definition nsP (s : st) : Prop := Forall ns_ok (s_nslog s).
 
-  Lemma ns_obligations :
-    (forall f, ninv f -> ninv (f_ext f)) /\
-    (forall f n, ninv f -> loop_exceeded v lim f n = false -> ninv (f_for f n)) /\
-    (forall f n, ninv f -> loop_exceeded v lim f n = false -> ninv (f_scale v f n)) /\
-    (forall f z, ninv f -> ninv (f_copy f z)) /\
-    (forall f s s', ninv f -> nsP s -> m_leaf (f_tp f) s = LOk s' -> nsP s') /\
-    (forall t s s', nsP s -> m_write lim t s = LOk s' -> nsP s') /\
-    (forall f x val s s', ninv f -> nsP s -> m_assign v lim f x val s = LOk s' -> nsP s').
+  Theorem run_ns_bound main sizes :
+    match run_prog v md lim main sizes with
+    | LOk s | LErr _ s => nsP s
+    | LFuel => True
+    end.
   Proof.
-    repeat split.
-    - intros f H; exact H.
-    - intros f n H _; exact H.
-    - intros f n H _; exact H.
+    apply (run_post v md lim ninv nsP nsP); auto.
     - intros f z H. unfold ninv in *; simpl. lia.
-    - intros f s s' _ HP H. inversion H; subst. exact HP.
-    - intros t s s' HP H. apply m_write_logs in H. unfold nsP. destruct H as (_ & -> & _). exact HP.
-    - intros f x val s s' HI HP H. unfold m_assign in H. destruct (s_sizes s) as [|z rest]; [discriminate|].
-      rewrite (ns_limit_repaired v lim Hv) in H. unfold ninv in HI.
+    - intros f _ s HP. exact HP.
+    - intros t s HP. pose proof (m_write_frame lim t s) as Fr. unfold nsP in *.
+      destruct (m_write lim t s) as [s'|e s'|]; simpl; auto; destruct Fr as (_ & -> & _); exact HP.
+    - intros f x val HI s HP. unfold m_assign. destruct (s_sizes s) as [|z rest]; [exact Logic.I|].
+      rewrite (ns_limit_repaired v lim Hv). unfold ninv in HI. destruct Hv as (_ & _ & Hr). rewrite Hr.
       destruct (l_ns lim) as [M|] eqn:EM.
-      + destruct (_ >? _) eqn:E; [discriminate|]. inversion H; subst. unfold nsP; cbn [s_nslog]. constructor; [|exact HP].
+      + destruct (_ >? _) eqn:E0; simpl; [exact HP|]. unfold nsP; cbn [s_nslog]. constructor; [|exact HP].
         split; cbn [fst snd]; [lia|]. intros M' HM'. rewrite EM in HM'. inversion HM'; subst. lia.
-      + inversion H; subst. unfold nsP; cbn [s_nslog]. constructor; [|exact HP].
+      + simpl. unfold nsP; cbn [s_nslog]. constructor; [|exact HP].
         split; cbn [fst snd]; [lia|]. intros M' HM'. rewrite EM in HM'. discriminate.
-  Qed.
-
-  Theorem run_ns_bound main sizes s : run_prog v lim main sizes = LOk s -> nsP s.
-  Proof.
-    intro H. unfold run_prog in H. destruct (nest_exceeded lim main); [discriminate|].
-    destruct ns_obligations as (O1 & O2 & O3 & O4 & O5 & O6 & O7).
-    eapply (partial_keeps v lim ninv nsP O1 O2 O3 O4 O5 O6 O7); [..|exact H].
-    - intros s0 HP; exact HP.
-    - intros s0 HP; exact HP.
-    - intros s0 s1 _ HP; exact HP.
-    - intros s0 l i HP; exact HP.
     - reflexivity.
     - constructor.
   Qed.
 End NsBound.
 
-(* ------------------------------------------------------------------ C07: output bytes *)
+(* ------------------------------------------------------------------ C07: output bytes, in every mode *)
 Section OutBound.
+  Variables (v : variant) (md : mode) (lim : limits).
+
+  (* every limited buffer, at every moment: the text holds at most `size` bytes and at most its own limit
+     (output_stream_limit - carried size; nothing at all if that is negative).  Refused writes (dropped in
+     WARN/LAX mode) grow the size, never the text: the limit is checked BEFORE the text is written. *)
+  Definition bufinv (b : buf) : Prop :=
+    match b with
+    | BNull => True
+    | BLim base size rt =>
+        utf8_bytes rt <= size /\ 0 <= base /\ forall L, l_out lim = Some L -> utf8_bytes rt <= Z.max 0 (L - base)
+    end.
+  Definition bufP (s : st) : Prop := bufinv (s_buf s).
+
+  Lemma buf_write_inv b t : bufinv b -> bufinv (snd (buf_write (l_out lim) b t)).
+  Proof.
+    intros Hb. unfold buf_write. destruct t as [|c t]; [exact Hb|].
+    destruct b as [|base size rt]; [exact Logic.I|].
+    destruct Hb as (Hs & Hbase & Hl). pose proof (utf8_bytes_nonneg (c :: t)) as Hn.
+    destruct (l_out lim) as [L|] eqn:EL.
+    - destruct (_ >? _) eqn:E0; cbn [snd bufinv].
+      + repeat split; try lia. intros L' HL'. rewrite EL in HL'. inversion HL'; subst. apply Hl. reflexivity.
+      + rewrite utf8_bytes_rev_append. repeat split; try lia. intros L' HL'. rewrite EL in HL'. inversion HL'; subst. lia.
+    - cbn [snd bufinv]. rewrite utf8_bytes_rev_append. repeat split; try lia. intros L' HL'. rewrite EL in HL'. discriminate.
+  Qed.
+
+  Theorem run_out_inv main sizes :
+    match run_prog v md lim main sizes with
+    | LOk s | LErr _ s => bufP s
+    | LFuel => True
+    end.
+  Proof.
+    apply (run_post v md lim (fun _ => True) bufP bufP); auto.
+    - intros f _ s HP. exact HP.
+    - intros t s HP. unfold m_write. pose proof (buf_write_inv (s_buf s) t HP) as Hw.
+      destruct (buf_write (l_out lim) (s_buf s) t) as [[|] b]; simpl in *; exact Hw.
+    - intros f x val _ s HP. pose proof (m_assign_frame v lim f x val s) as Fr. unfold bufP in *.
+      destruct (m_assign v lim f x val s) as [s'|e s'|]; simpl; auto; destruct Fr as (-> & _); exact HP.
+    - intros s HP. exact Logic.I.
+    - intros s HP. unfold bufP in *; simpl. destruct (s_buf s) as [|base size rt]; simpl.
+      + repeat split; try lia.
+      + destruct HP as (Hs & Hbase & Hl). pose proof (utf8_bytes_nonneg rt). repeat split; try lia.
+    - unfold bufP; simpl. repeat split; try lia.
+  Qed.
+
+  (* C07, first clause, for EVERY completed render whatever the mode *)
+  Theorem run_out_bound main sizes s L :
+    l_out lim = Some L -> 0 <= L -> run_prog v md lim main sizes = LOk s -> utf8_bytes (buf_text (s_buf s)) <= L.
+  Proof.
+    intros HL H0 Hr. pose proof (run_out_inv main sizes) as Hi. rewrite Hr in Hi.
+    unfold bufP in Hi. destruct (s_buf s) as [|base size rt]; simpl; [exact H0|].
+    destruct Hi as (Hs & Hbase & Hl). rewrite utf8_bytes_rev. specialize (Hl L HL). lia.
+  Qed.
+End OutBound.
+
+(* in STRICT mode a completed render moreover has size = bytes written <= own limit in every buffer *)
+Section OutStrict.
   Variables (v : variant) (lim : limits).
   Hypothesis Hpos : forall L, l_out lim = Some L -> 0 <= L.
 
-  (* every limited buffer: size = bytes written, and size <= its own limit (= L - base) *)
-  Definition bufinv (b : buf) : Prop :=
+  Definition bufinv_strict (b : buf) : Prop :=
     match b with
     | BNull => True
     | BLim base size rt => utf8_bytes rt = size /\ 0 <= base /\ forall L, l_out lim = Some L -> size <= L - base
     end.
-  Definition bufP (s : st) : Prop := bufinv (s_buf s).
+  Definition bufP_strict (s : st) : Prop := bufinv_strict (s_buf s).
 
-  Lemma buf_write_inv b t b' : bufinv b -> buf_write (l_out lim) b t = Some b' -> bufinv b'.
+  Theorem run_out_inv_strict main sizes s : run_prog v Strict lim main sizes = LOk s -> bufP_strict s.
   Proof.
-    intros Hb H. unfold buf_write in H. destruct t as [|c t]; [inversion H; subst; exact Hb|].
-    destruct b as [|base size rt]; [inversion H; subst; exact I|].
-    destruct Hb as (Hs & Hbase & Hl).
-    destruct (l_out lim) as [L|] eqn:EL.
-    - destruct (_ >? _) eqn:E; [discriminate|]. inversion H; subst. simpl.
-      rewrite utf8_bytes_rev_append. simpl. repeat split; try lia. intros L' HL'. rewrite EL in HL'. inversion HL'; subst. simpl in E. lia.
-    - inversion H; subst. simpl. rewrite utf8_bytes_rev_append. simpl. repeat split; try lia. intros L' HL'. rewrite EL in HL'. discriminate.
-  Qed.
-
-  Theorem run_out_inv main sizes s : run_prog v lim main sizes = LOk s -> bufP s.
-  Proof.
-    intro H. unfold run_prog in H. destruct (nest_exceeded lim main); [discriminate|].
-    eapply (partial_keeps v lim (fun _ => True) bufP); [..|exact H]; auto.
-    - intros f s0 s0' _ HP H0. inversion H0; subst. exact HP.
-    - intros t s0 s0' HP H0. unfold m_write in H0. destruct (buf_write _ _ _) as [b'|] eqn:E; [|discriminate].
-      inversion H0; subst. unfold bufP; simpl. eapply buf_write_inv; eauto.
-    - intros f x val s0 s0' _ HP H0. unfold m_assign in H0. destruct (s_sizes s0); [discriminate|].
-      destruct (ns_limit v lim); [destruct (_ >? _); [discriminate|]|]; inversion H0; subst; exact HP.
-    - intros s0 HP. exact I.
-    - intros s0 HP. unfold bufP in *; simpl. destruct (s_buf s0) as [|base size rt]; simpl.
+    intro Hr.
+    pose proof (run_post v Strict lim (fun _ => True) bufP_strict (fun _ => True)) as R.
+    unfold post in R. specialize (fun a b c d e f g h i j k l m n o => R a b c d e f g h i j k l m n o main sizes).
+    rewrite Hr in R. apply R; auto; try discriminate.
+    - intros f _ s0 HP. exact HP.
+    - intros t s0 HP. unfold m_write, buf_write. destruct t as [|c t]; [exact HP|].
+      unfold bufP_strict in *. destruct (s_buf s0) as [|base size rt]; [exact Logic.I|].
+      destruct HP as (Hs & Hbase & Hl).
+      destruct (l_out lim) as [L|] eqn:EL.
+      + destruct (_ >? _) eqn:E0; simpl; [exact Logic.I|]. rewrite utf8_bytes_rev_append. simpl. repeat split; try lia.
+        intros L' HL'. rewrite ?EL in HL'. inversion HL'; subst. simpl in E0. lia.
+      + simpl. rewrite utf8_bytes_rev_append. simpl. repeat split; try lia. intros L' HL'. rewrite ?EL in HL'. discriminate.
+    - intros f x val _ s0 HP. pose proof (m_assign_frame v lim f x val s0) as Fr. unfold bufP_strict in *.
+      destruct (m_assign v lim f x val s0) as [s'|e s'|]; simpl; auto; destruct Fr as (-> & _); exact HP.
+    - intros s0 HP. exact Logic.I.
+    - intros s0 HP. unfold bufP_strict in *; simpl. destruct (s_buf s0) as [|base size rt]; simpl.
       + repeat split; try lia. intros L HL. specialize (Hpos L HL). lia.
       + destruct HP as (Hs & Hbase & Hl). pose proof (utf8_bytes_nonneg rt). repeat split; try lia.
         intros L HL. specialize (Hl L HL). lia.
-    - unfold bufP; simpl. repeat split; try lia. intros L HL. specialize (Hpos L HL). lia.
+    - unfold bufP_strict; simpl. repeat split; try lia. intros L HL. specialize (Hpos L HL). lia.
   Qed.
+End OutStrict.
 
-  Theorem run_out_bound main sizes s L :
-    l_out lim = Some L -> run_prog v lim main sizes = LOk s -> utf8_bytes (buf_text (s_buf s)) <= L.
-  Proof.
-    intros HL H. apply run_out_inv in H. unfold bufP in H. destruct (s_buf s) as [|base size rt]; simpl.
-    - apply Hpos; exact HL.
-    - destruct H as (Hs & Hbase & Hl). rewrite utf8_bytes_rev. specialize (Hl L HL). lia.
-  Qed.
-End OutBound.
+(* ------------------------------------------------------------------ the same, read off a completed render *)
+Corollary run_leaf_bound_ok v md lim L : is_repaired v -> l_loop lim = Some L -> forall main sizes s,
+  (1 <= L)%N -> run_prog v md lim main sizes = LOk s -> leafP L s.
+Proof. intros Hv HL main sizes s H1 Hr. pose proof (run_leaf_bound v md lim L Hv HL main sizes H1) as R. rewrite Hr in R. exact R. Qed.
+
+Corollary run_ns_bound_ok v md lim : is_repaired v -> forall main sizes s,
+  run_prog v md lim main sizes = LOk s -> nsP lim s.
+Proof. intros Hv main sizes s Hr. pose proof (run_ns_bound v md lim Hv main sizes) as R. rewrite Hr in R. exact R. Qed.
+
+Corollary run_out_inv_ok v md lim main sizes s : run_prog v md lim main sizes = LOk s -> bufP lim s.
+Proof. intros Hr. pose proof (run_out_inv v md lim main sizes) as R. rewrite Hr in R. exact R. Qed.
